@@ -420,6 +420,37 @@ impl Default for DevO {
     }
 }
 
+/// C04 "exactly when" over a NON-quiescent stretch of lines (a *window*: from a line that starts with every
+/// task at rest to the next line that ends so). While a device task is busy (inside a client call the client
+/// has not answered, or inside a held `on_dcmd` callback) the application may make any number of
+/// enable / disable / rebirth requests through the device's handle; they are requests of ONE caller on ONE
+/// handle, so they take effect one after the other, in the order they were made. If during the window the
+/// node stays birthed (no connection event, no node rebirth, no cancel) and the device is neither registered
+/// nor unregistered, the device's lifecycle hand-overs of the window are therefore determined: walking the
+/// requests in order, an `enable` of an unbirthed device hands over one DBIRTH, a `disable` of a birthed one
+/// one DDEATH, a `drebirth` of an enabled one one DBIRTH, and nothing else is handed over ("birthed" =
+/// the latest DBIRTH was accepted by the client and no DDEATH followed).
+#[derive(Clone, Debug, Default)]
+struct WinDev {
+    valid: bool,
+    birthed0: bool,
+    en0: bool,
+    /// (line, verb) of every request made through the handle, in order
+    reqs: Vec<(usize, &'static str)>,
+    /// (call id, is DBIRTH, line) of every lifecycle hand-over for the device, in order
+    lcs: Vec<(usize, bool, usize)>,
+}
+
+#[derive(Clone, Debug)]
+struct Win {
+    start: usize,
+    lines: usize,
+    valid: bool,
+    devs: BTreeMap<u32, WinDev>,
+    /// final answer of the client to every call handed over in the window
+    results: BTreeMap<usize, bool>,
+}
+
 struct LineCtx<'a> {
     stim: &'a str,
     w: &'a [&'a str],
@@ -455,6 +486,10 @@ struct Oracle {
     // C04
     devs: BTreeMap<u32, DevO>,
     parked: BTreeMap<usize, (Kind, Option<u32>)>,
+    /// the current window of lines (None until the first line that starts at rest)
+    win: Option<Win>,
+    /// at-rest clauses already reported for (device, clause) in this case
+    rest_reported: BTreeSet<(u32, u8)>,
     // C20
     cancelled: bool,
     x_seen: bool,
@@ -492,6 +527,8 @@ impl Oracle {
             offline_pending: None,
             devs: BTreeMap::new(),
             parked: BTreeMap::new(),
+            win: None,
+            rest_reported: BTreeSet::new(),
             cancelled: false,
             x_seen: false,
             online_after_cancel: false,
@@ -517,6 +554,84 @@ impl Oracle {
         }
     }
 
+    /// the per-device walk of a window (see `Win`)
+    fn check_window(&self, win: &Win, here: &str, out: &mut Out) {
+        for (d, wd) in &win.devs {
+            if !wd.valid || self.devs.get(d).map(|x| x.tainted).unwrap_or(true) {
+                continue;
+            }
+            if wd.reqs.is_empty() && wd.lcs.is_empty() {
+                continue;
+            }
+            out.count("oracle:C04-window-walked");
+            out.count_n("oracle:C04-window-requests", wd.reqs.len() as u64);
+            let show_lcs = |upto: usize| -> String {
+                let v: Vec<String> = wd.lcs.iter().take(upto).map(|(id, b, _)| format!("{}{}", if *b { "DBIRTH#" } else { "DDEATH#" }, id)).collect();
+                if v.len() > 12 {
+                    format!("{} .. {} ({} in all)", v[..4].join(","), v[v.len() - 4..].join(","), v.len())
+                } else {
+                    v.join(",")
+                }
+            };
+            let (mut birthed, mut en, mut k) = (wd.birthed0, wd.en0, 0usize);
+            let mut bad = false;
+            for (i, (ln, verb)) in wd.reqs.iter().enumerate() {
+                let expect: Option<bool> = match *verb {
+                    "enable" => {
+                        en = true;
+                        if !birthed { Some(true) } else { None }
+                    }
+                    "disable" => {
+                        en = false;
+                        if birthed { Some(false) } else { None }
+                    }
+                    _ => {
+                        if en { Some(true) } else { None }
+                    }
+                };
+                if let Some(is_birth) = expect {
+                    match wd.lcs.get(k) {
+                        Some((id, got, _)) if *got == is_birth => {
+                            k += 1;
+                            birthed = is_birth && win.results.get(id).copied().unwrap_or(false);
+                        }
+                        other => {
+                            let what = match other {
+                                None => format!("the device's lifecycle hand-overs of the window end after {} ({})", k, show_lcs(k)),
+                                Some((id, got, l2)) => format!("the next one is {}#{} (line {})", if *got { "DBIRTH" } else { "DDEATH" }, id, l2),
+                            };
+                            out.fail(
+                                if is_birth { "C04:dbirth-exactly-when" } else { "C04:ddeath-exactly-when" },
+                                &format!("burst:{}", verb),
+                                format!(
+                                    "device {}: lines {}..{} (node birthed throughout, device {} and {} at the start), request {} of {} through its handle (`{} {}`, line {}) finds the device {} and must hand over a {}, but {}; {}",
+                                    d, win.start, win.start + win.lines - 1,
+                                    if wd.en0 { "enabled" } else { "disabled" }, if wd.birthed0 { "birthed" } else { "not birthed" },
+                                    i + 1, wd.reqs.len(), verb, d, ln,
+                                    if is_birth { if *verb == "enable" { "not birthed" } else { "enabled" } } else { "birthed" },
+                                    if is_birth { "DBIRTH" } else { "DDEATH" }, what, here
+                                ),
+                            );
+                            bad = true;
+                            break;
+                        }
+                    }
+                }
+            }
+            if !bad && k < wd.lcs.len() {
+                let (id, got, l2) = wd.lcs[k];
+                out.fail(
+                    if got { "C04:dbirth-exactly-when" } else { "C04:ddeath-exactly-when" },
+                    "burst:unrequested",
+                    format!(
+                        "device {}: lines {}..{} (node birthed throughout), the {} requests through its handle account for {} lifecycle hand-over(s), {}#{} (line {}) is one more; {}",
+                        d, win.start, win.start + win.lines - 1, wd.reqs.len(), k, if got { "DBIRTH" } else { "DDEATH" }, id, l2, here
+                    ),
+                );
+            }
+        }
+    }
+
     fn line(&mut self, c: &LineCtx, out: &mut Out) {
         self.nline += 1;
         let w = c.w;
@@ -531,6 +646,39 @@ impl Oracle {
         let online_after_cancel0 = self.online_after_cancel;
         let devs0 = self.devs.clone();
         let dnum = |i: usize| w.get(i).and_then(|s| s.parse::<u32>().ok());
+        // ---- C04 window bookkeeping (see `Win`): a line that starts with every task at rest opens a new window
+        if c.qs {
+            let mut wd = BTreeMap::new();
+            for (d, dv) in &devs0 {
+                wd.insert(*d, WinDev { valid: dv.reg && !dv.tainted && !dv.dirty, birthed0: dv.lc_birth == Lc::Ok, en0: dv.en, reqs: vec![], lcs: vec![] });
+            }
+            self.win = Some(Win { start: self.nline, lines: 0, valid: node_ok0 && !cancelled0 && !x0, devs: wd, results: BTreeMap::new() });
+        }
+        if let Some(win) = self.win.as_mut() {
+            win.lines += 1;
+            match verb {
+                "enable" | "disable" | "drebirth" => {
+                    if let (false, Some(d)) = (nodev, dnum(1)) {
+                        let v: &'static str = match verb {
+                            "enable" => "enable",
+                            "disable" => "disable",
+                            _ => "drebirth",
+                        };
+                        win.devs.entry(d).or_default().reqs.push((self.nline, v));
+                    }
+                }
+                // the incarnation behind the name changes: the per-device walk says nothing about it
+                "reg" | "unreg" => {
+                    if let Some(d) = dnum(1) {
+                        win.devs.entry(d).or_default().valid = false;
+                    }
+                }
+                // no effect on any lifecycle: publishes, client policies and answers, callback gates, DCMDs, time
+                "pub" | "rule" | "resolve" | "cbpark" | "cbrelease" | "dcmd" | "adv" => {}
+                // connection events, node rebirths (manual / NCMD), cancel, new: the node does not simply stay birthed
+                _ => win.valid = false,
+            }
+        }
         // ---- the stimulus at user level
         let mut first_cancel = false;
         match verb {
@@ -749,8 +897,31 @@ impl Oracle {
                     if *dec == Decision::Park {
                         self.parked.insert(*id, (kind.clone(), *d));
                     }
+                    if let Some(win) = self.win.as_mut() {
+                        match dec {
+                            Decision::Accept => {
+                                win.results.insert(*id, true);
+                            }
+                            Decision::Reject => {
+                                win.results.insert(*id, false);
+                            }
+                            Decision::Park => {}
+                        }
+                        match kind {
+                            Kind::DBirth | Kind::DDeath => {
+                                if let Some(dn) = d {
+                                    win.devs.entry(*dn).or_default().lcs.push((*id, *kind == Kind::DBirth, self.nline));
+                                }
+                            }
+                            Kind::DData | Kind::NData => {}
+                            _ => win.valid = false,
+                        }
+                    }
                 }
                 Ev::Res { id, ok } => {
+                    if let Some(win) = self.win.as_mut() {
+                        win.results.insert(*id, *ok);
+                    }
                     if let Some((kind, d)) = self.parked.remove(id) {
                         match kind {
                             Kind::NBirth => {
@@ -770,6 +941,9 @@ impl Oracle {
                     }
                 }
                 Ev::Will { bd, seq } => {
+                    if let Some(win) = self.win.as_mut() {
+                        win.valid = false;
+                    }
                     self.wills += 1;
                     if seq.is_some() {
                         out.fail("C02:ndeath-has-no-seq", "will", format!("{}; {}", e.show(), here));
@@ -805,6 +979,9 @@ impl Oracle {
                 }
                 Ev::Polled(n) => match n.as_str() {
                     "Online" => {
+                        if let Some(win) = self.win.as_mut() {
+                            win.valid = false;
+                        }
                         self.polled_offline_last = false;
                         self.bd_at_online = self.will_bd;
                         if !self.sub_since_will {
@@ -815,6 +992,9 @@ impl Oracle {
                         }
                     }
                     "Offline" => {
+                        if let Some(win) = self.win.as_mut() {
+                            win.valid = false;
+                        }
                         self.polled_offline_last = true;
                         self.offline_pending = Some(false);
                         self.trigger_since_will = true;
@@ -822,6 +1002,11 @@ impl Oracle {
                     _ => {}
                 },
                 Ev::Note(s) => {
+                    if s == "B:node" || s == "X" || s == "PANIC" || s.ends_with(":panic") {
+                        if let Some(win) = self.win.as_mut() {
+                            win.valid = false;
+                        }
+                    }
                     if s == "B:node" {
                         self.node_ok = false;
                         self.why = "birth-in-flight";
@@ -976,6 +1161,44 @@ impl Oracle {
             if self.polled_offline_last && self.node_ok {
                 self.node_ok = false;
                 self.why = "after-polled-offline-at-rest";
+            }
+            let live = !cancelled0 && !self.cancelled && !x0 && !self.x_seen;
+            // C04 "exactly when" over the window that ends here (single-line windows are the clause above)
+            if let Some(win) = self.win.take() {
+                if win.valid && win.lines >= 2 && live {
+                    self.check_window(&win, &here, out);
+                }
+            }
+            // C04 "exactly when", the state every task has come to rest in: the node is birthed, nothing is
+            // parked, no callback is held, every request made so far has had all the time it needs. Whatever
+            // the interleaving was, the LAST thing the application asked for stands:
+            //  * a device it disabled / unregistered last is not left birthed (its latest lifecycle hand-over of
+            //    this node birth is not an accepted DBIRTH): "a DDEATH is published exactly when a birthed
+            //    device is disabled or unregistered while the node is birthed";
+            //  * a registered device it enabled last is not left without a DBIRTH in this node birth (none at
+            //    all, or a DDEATH last): "a DBIRTH is published exactly when it is enabled while the node is
+            //    birthed - once after each NBIRTH, on enable". (A DBIRTH the client REJECTED was published;
+            //    the property does not ask for a retry.)
+            if live && self.node_ok {
+                for (d, dv) in &self.devs {
+                    if dv.tainted {
+                        continue;
+                    }
+                    if !dv.en && dv.lc_birth == Lc::Ok && self.rest_reported.insert((*d, 0)) {
+                        out.fail(
+                            "C04:ddeath-exactly-when",
+                            if dv.reg { "at-rest:disabled-device-still-birthed" } else { "at-rest:unregistered-device-still-birthed" },
+                            format!("device {}: the application's last request was to {} it, the node is birthed and every task is at rest, yet the device's latest lifecycle hand-over of this node birth is an accepted DBIRTH (no DDEATH); {}", d, if dv.reg { "disable" } else { "unregister" }, here),
+                        );
+                    }
+                    if dv.reg && dv.en && matches!(dv.lc_birth, Lc::None | Lc::Death) && self.rest_reported.insert((*d, 1)) {
+                        out.fail(
+                            "C04:dbirth-exactly-when",
+                            "at-rest:enabled-device-not-birthed",
+                            format!("device {}: registered, the application's last request was to enable it, the node is birthed and every task is at rest, yet {} of this node birth; {}", d, if dv.lc_birth == Lc::None { "no DBIRTH was handed over for it" } else { "its latest lifecycle hand-over is a DDEATH" }, here),
+                        );
+                    }
+                }
             }
         }
         // C20 termination: bounded time once nothing is outstanding
@@ -1763,6 +1986,51 @@ fn scripted(out: &mut Out) {
         let refs: Vec<&str> = steps.iter().map(|s| s.as_str()).collect();
         run(out, 0, "c04-256-node-births-behind-a-held-device", &refs);
     }
+    // C04 request bursts: the application makes MANY enable / disable / rebirth requests through one handle
+    // while the device task cannot get to them (its DBIRTH / DDEATH is waiting for the client, or its `on_dcmd`
+    // callback is held); once the task is free every request takes effect, in order, and the last one stands -
+    // also for the next node rebirth, a later publish and a later enable
+    {
+        let toggles = |n: usize, last: &str| -> Vec<String> {
+            let mut v = vec![];
+            for _ in 0..n {
+                v.push("disable 1".to_string());
+                v.push("enable 1".to_string());
+            }
+            v.push(last.to_string());
+            v
+        };
+        let go = |out: &mut Out, name: &str, pre: &[&str], burst: Vec<String>, post: &[&str]| {
+            let mut steps: Vec<String> = pre.iter().map(|s| s.to_string()).collect();
+            steps.extend(burst);
+            steps.extend(post.iter().map(|s| s.to_string()));
+            let refs: Vec<&str> = steps.iter().map(|s| s.as_str()).collect();
+            run(out, 0, name, &refs);
+        };
+        let after = ["resolve-oldest ok", "pub dev 1 try n=1", "nrebirth", "pub dev 1 try n=1", "enable 1", "pub dev 1 try n=1", "disable 1"];
+        // the exact shape of a toggling application: 2, 8 and 20 toggles behind a parked DBIRTH, left disabled
+        for n in [2usize, 8, 20] {
+            go(out, &format!("c04-toggle-burst-behind-parked-dbirth-{}", n), &["online", "reg 1", "rule DBIRTH park 1", "enable 1"], toggles(n, "disable 1"), &after);
+        }
+        // ... left enabled; behind a parked DDEATH; behind a held callback
+        go(out, "c04-toggle-burst-behind-parked-dbirth-left-enabled", &["online", "reg 1", "rule DBIRTH park 1", "enable 1"], toggles(20, "enable 1"), &after);
+        go(out, "c04-toggle-burst-behind-parked-ddeath", &["online", "reg 1", "enable 1", "rule DDEATH park 1", "disable 1"], toggles(20, "enable 1"), &after);
+        go(out, "c04-toggle-burst-behind-held-callback", &["online", "reg 1", "enable 1", "cbpark 1", "dcmd 1 ts=1"], toggles(20, "disable 1"), &["cbrelease 1", "pub dev 1 try n=1", "nrebirth", "pub dev 1 try n=1", "enable 1"]);
+        // every explicit rebirth is a DBIRTH: 24 of them behind a parked DBIRTH, then a disable
+        go(out, "c04-rebirth-burst-behind-parked-dbirth", &["online", "reg 1", "rule DBIRTH park 1", "enable 1"], (0..24).map(|_| "drebirth 1".to_string()).chain(["disable 1".to_string()]).collect(), &after);
+        // requests of an application that never toggles: the same request many times over
+        go(out, "c04-repeated-disable-behind-parked-dbirth", &["online", "reg 1", "rule DBIRTH park 1", "enable 1"], (0..30).map(|_| "disable 1".to_string()).collect(), &after);
+        go(out, "c04-repeated-enable-behind-parked-ddeath", &["online", "reg 1", "enable 1", "rule DDEATH park 1", "disable 1"], (0..30).map(|_| "enable 1".to_string()).collect(), &after);
+        // a burst that ends in the unregistration of the device (the removal overtakes what is still queued)
+        go(out, "c04-toggle-burst-then-unregister", &["online", "reg 1", "reg 2", "enable 2", "rule DBIRTH park 1", "enable 1"], toggles(20, "enable 1"), &["unreg 1", "resolve-oldest ok", "nrebirth", "reg 1", "enable 1", "pub dev 1 try n=1"]);
+        // a burst while the NODE's birth is waiting for the client (nothing can be published yet): the last
+        // request decides whether the device is part of that birth
+        go(out, "c04-toggle-burst-behind-parked-nbirth", &["reg 1", "enable 1", "reg 2", "enable 2", "rule NBIRTH park 1", "online"], toggles(20, "disable 1"), &["resolve-oldest ok", "pub dev 1 try n=1", "pub dev 2 try n=1", "nrebirth"]);
+        // a burst while the node task is held in `on_ncmd` (the device tasks are free)
+        go(out, "c04-toggle-burst-behind-held-ncmd-callback", &["online", "reg 1", "enable 1", "cbpark node", "ncmd rb=x ts=1"], toggles(20, "disable 1"), &["cbrelease node", "pub dev 1 try n=1", "nrebirth"]);
+        // a very long one
+        go(out, "c04-toggle-burst-behind-parked-dbirth-330", &["online", "reg 1", "rule DBIRTH park 1", "enable 1"], toggles(165, "disable 1"), &after);
+    }
     // a held node callback blocks the node's state progression: events queue up behind it
     run(out, 0, "held-ncmd-callback", &[
         "online", "reg 1", "enable 1", "cbpark node", "ncmd rb=x ts=1", "nrebirth", "pub node try n=1", "offline", "pub node try n=1", "online",
@@ -2077,7 +2345,132 @@ fn long_bdseq_case(out: &mut Out, rng: &mut Rng, sessions: u64) {
     c.finish();
 }
 
-pub const RULE: &str = "edge-node schedules through the real EoN / NodeHandle / DeviceHandle (paused tokio time, mock client whose every call the harness accepts, rejects or parks and later resolves, scripted event loop, recording managers whose callbacks can be held): (a) scripted scenarios per clause of C01-C04/C20 incl. the suspected defects; (b) every stimulus sequence of length <= L over a 14-symbol alphabet from a fresh node and from a birthed node with a birthed device; (c) random schedules of 20-200 stimuli with 1-3 devices, client policies, duplicate / early Offline, NCMD rebirths with cooldown 0 / 5 s / longer than the run, cancels at random points, and long runs wrapping seq and bdSeq. Each line = one stimulus + everything observed until quiescence. Non-trivial = at least two stimuli; distinct = distinct request-line sequences (hashed).";
+/// (d) request bursts: long runs of enable / disable / rebirth (and a final unregister) requests through
+/// device handles, made while a device task or the node task is held up - in a client call the client has not
+/// answered (DBIRTH, DDEATH, NBIRTH), or in a held `on_dcmd` / `on_ncmd` callback - then everything is released.
+/// Mostly one device, strictly toggling or random requests, now and then a publish, a DCMD, a node rebirth or
+/// a connection loss in the middle of the burst.
+fn burst_case(out: &mut Out, rng: &mut Rng, size: u64) {
+    let mut c = Case::begin(out, 0);
+    let ndev = rng.range(1, 3);
+    let hold = rng.below(7);
+    if hold == 4 && rng.chance(1, 2) {
+        c.stim("rule NBIRTH park 1");
+    }
+    c.stim("online");
+    for d in 1..=ndev {
+        c.stim(&format!("reg {}", d));
+        if rng.chance(2, 3) {
+            c.stim(&format!("enable {}", d));
+        }
+    }
+    let t = rng.range(1, ndev);
+    c.out.count(&format!("burst:hold:{}", ["dbirth", "ddeath", "dcmd-callback", "ncmd-callback", "nbirth", "dbirths-of-node-rebirth", "none"][hold as usize]));
+    match hold {
+        0 => {
+            c.stim(&format!("rule DBIRTH park {}", rng.range(1, 2)));
+            c.stim(&format!("{} {}", rng.pick(&["enable", "enable", "drebirth"]), t));
+        }
+        1 => {
+            c.stim("rule DDEATH park 1");
+            c.stim(&format!("enable {}", t));
+            c.stim(&format!("disable {}", t));
+        }
+        2 => {
+            c.stim(&format!("cbpark {}", t));
+            c.stim(&format!("dcmd {} ts=1", t));
+        }
+        3 => {
+            c.stim("cbpark node");
+            c.stim(&format!("ncmd rb={} ts=1", rng.pick(&["x", "1"])));
+        }
+        4 => {
+            if c.sess.parked().is_empty() {
+                c.stim("rule NBIRTH park 1");
+                c.stim("nrebirth");
+            }
+        }
+        5 => {
+            c.stim(&format!("rule DBIRTH park {}", ndev));
+            c.stim("nrebirth");
+        }
+        _ => {}
+    }
+    let alternate = rng.chance(1, 2);
+    let mid = if rng.chance(1, 3) { Some(rng.below(size)) } else { None };
+    let mut next_on = rng.chance(1, 2);
+    for i in 0..size {
+        let d = if rng.chance(5, 6) { t } else { rng.range(1, ndev) };
+        let v = if alternate && d == t {
+            next_on = !next_on;
+            if next_on { "enable" } else { "disable" }
+        } else {
+            *rng.pick(&["enable", "disable", "enable", "disable", "drebirth"])
+        };
+        c.stim(&format!("{} {}", v, d));
+        if rng.chance(1, 20) {
+            c.stim(&format!("pub dev {} {} n=1", d, rng.pick(&MODES)));
+        }
+        if rng.chance(1, 50) {
+            c.stim(&format!("dcmd {} ts=1", d));
+        }
+        if Some(i) == mid {
+            c.out.count("burst:mid-event");
+            match rng.below(5) {
+                0 => {
+                    c.stim("nrebirth");
+                }
+                1 => {
+                    c.stim("offline");
+                    c.stim("online");
+                }
+                2 => {
+                    c.stim("ncmd rb=1 ts=1");
+                }
+                3 => {
+                    c.resolve_oldest(rng.chance(3, 4));
+                }
+                _ => {
+                    let o = rng.range(1, ndev);
+                    if o != t {
+                        c.stim(&format!("unreg {}", o));
+                    }
+                }
+            }
+        }
+    }
+    // what the application wants in the end
+    match rng.below(6) {
+        0 | 1 => {
+            c.stim(&format!("disable {}", t));
+        }
+        2 | 3 => {
+            c.stim(&format!("enable {}", t));
+        }
+        4 => {
+            c.stim(&format!("unreg {}", t));
+        }
+        _ => {}
+    }
+    // release
+    if rng.chance(1, 5) {
+        c.resolve_oldest(false);
+    }
+    c.drain();
+    for d in 1..=ndev {
+        c.stim(&format!("pub dev {} try n=1", d));
+    }
+    if rng.chance(2, 3) {
+        c.stim(if rng.chance(1, 2) { "nrebirth" } else { "ncmd rb=1 ts=1" });
+        c.stim(&format!("pub dev {} blk n=1", t));
+    }
+    c.stim(&format!("{} {}", rng.pick(&["enable", "disable", "drebirth"]), t));
+    c.out.count("case:burst");
+    c.out.count(if size >= 100 { "case:burst:long" } else { "case:burst:short" });
+    c.finish();
+}
+
+pub const RULE: &str = "edge-node schedules through the real EoN / NodeHandle / DeviceHandle (paused tokio time, mock client whose every call the harness accepts, rejects or parks and later resolves, scripted event loop, recording managers whose callbacks can be held): (a) scripted scenarios per clause of C01-C04/C20 incl. the suspected defects; (b) every stimulus sequence of length <= L over a 14-symbol alphabet from a fresh node and from a birthed node with a birthed device; (c) random schedules of 20-200 stimuli with 1-3 devices, client policies, duplicate / early Offline, NCMD rebirths with cooldown 0 / 5 s / longer than the run, cancels at random points, and long runs wrapping seq and bdSeq; (d) request bursts: 17-40 (a few 300-420) enable / disable / rebirth requests (and a final unregister) through device handles while a device task or the node task is held up (parked DBIRTH / DDEATH / NBIRTH, held on_dcmd / on_ncmd callback), strictly toggling or random, with publishes, DCMDs, node rebirths and connection losses in between, then released. Each line = one stimulus + everything observed until quiescence. Non-trivial = at least two stimuli; distinct = distinct request-line sequences (hashed).";
 
 
 /// The node's rebirth cooldown under the UNMOCKED wall clock (the verif-hooks mock shadows the clock reading
@@ -2147,6 +2540,17 @@ pub fn run(args: &Args, out: &mut Out) -> &'static str {
             let mut r = rng.fork();
             long_bdseq_case(out, &mut r, 300);
         }
+    }
+    // (d) request bursts (after everything else: the random streams of the cases above are unchanged)
+    for _ in 0..(if th { 240 } else { 48 }) {
+        let mut r = rng.fork();
+        let size = r.range(17, 40);
+        burst_case(out, &mut r, size);
+    }
+    for _ in 0..(if th { 12 } else { 3 }) {
+        let mut r = rng.fork();
+        let size = r.range(300, 420);
+        burst_case(out, &mut r, size);
     }
     RULE
 }
